@@ -440,8 +440,10 @@ def do_vol_cell(f, text):
 
 # ---------------------------------------------------------------- tag == keyword, single atom default (direct only)
 def direct_tags():
-    for _ in range(60):
-        s = gen_string() if rng.random() < 0.7 else rng.choice(FIXED)
+    BRACKETED = ["(50 vol% D2O@1n // H2O@1)", "(10 wt% Fe[56] // Ni)", "(30 wt% Li[6]F@2.6 // LiF@2.64)", "(25 vol% D2O@1n // H2O@1)"]
+    for it in range(60):
+        # (a bracketed mixture takes the same three tags on its closing bracket)
+        s = rng.choice(BRACKETED) if it % 6 == 5 else (gen_string() if rng.random() < 0.7 else rng.choice(FIXED))
         d = density_value()
         base = attempt(lambda: formula(s))
         if isinstance(base, Exception):
